@@ -34,6 +34,7 @@ def build(name="SH"):
     # integers: semi-constrained with a negative / large lower bound, upper-bounded only, ranges that straddle the 1/2/4-octet
     # OER widths on one side only
     rng_ = lambda lo, hi, ext=False: Constraint([(("range", lo, hi), ext, None)])
+    m.add("I0", Type("INTEGER", value_c=rng_(0, MAX)))
     m.add("I1", Type("INTEGER", value_c=rng_(-10, MAX)))
     m.add("I2", Type("INTEGER", value_c=rng_(-10, MAX, True)))
     m.add("I3", Type("INTEGER", value_c=rng_(70000, MAX)))
@@ -47,7 +48,7 @@ def build(name="SH"):
     m.add("Z3", Type("OCTET STRING", size_c=Constraint([(("val", 70000), False, None)])))
     m.add("Z4", Type("SEQUENCE OF", elem=Type("BOOLEAN"), size_c=rng_(65535, 65537)))
     # exactly 8 and 16 extension additions (the OER presence bitmap has no unused bits)
-    for k in (8, 16):
+    for k in (8, 16, 63, 64, 65):
         m.add("X%d" % k, Type("SEQUENCE", comps=[Comp("a%d" % k, Type("INTEGER"))],
                               ext=[Comp("e%d-%d" % (k, i), Type("INTEGER"), optional=True) for i in range(1, k + 1)]))
     # more than 64 extension additions / alternatives / enumeration items: "normally small" numbers and lengths above 63 / 64
@@ -228,6 +229,14 @@ def build4(name="EQ"):
     m.add("E11", Type("SEQUENCE", comps=[Comp("q11", Type("IA5String"), has_default=True, default='say "hi"'),
                                          Comp("r11", Type("VisibleString"), has_default=True, default='"'),
                                          Comp("n11", Type("INTEGER"))]))
+    # time values that leave room for every non-DER notation (zero seconds / minutes), special REAL values
+    m.add("E12", Type("GeneralizedTime"))
+    m.add("E13", Type("UTCTime"))
+    m.add("E14", Type("REAL"))
+    m.add("E15", Type("SEQUENCE", comps=[Comp("r15", Type("REAL")), Comp("t15", Type("GeneralizedTime"), optional=True)]))
+    m.add("Colour", Type("ENUMERATED", items=[("red", 0), ("green", 1), ("blue", 2)]))
+    m.add("E16", Type("SET OF", elem=Type("REF", ref="Colour")))
+    m.add("E17", Type("SET OF", elem=Type("BOOLEAN")))
     m.add("E8", Type("SEQUENCE", comps=[Comp("s8", Type("IA5String"), has_default=True, default="hello"),
                                         Comp("u8", Type("UTF8String"), has_default=True, default=""),
                                         Comp("n8", Type("INTEGER")),
@@ -267,6 +276,18 @@ def values4(mod, name, rng, quick):
         out = [[{"p10": 1, "q10": False}, {"p10": 1, "q10": True}, {"p10": 0, "q10": True}], [{"p10": 3, "q10": True}, {"p10": 2, "q10": True}], []]
     elif name == "E11":
         out = [{"n11": 1}, {"q11": 'say "hi"', "n11": 2}, {"r11": '"', "n11": 3}, {"q11": 'say "hi', "r11": '""', "n11": 4}, {"q11": "x", "r11": "y", "n11": 5}]
+    elif name == "E12":
+        out = ["20200101120000Z", "20200101123000Z", "20200101123045Z", "20200101123045.5Z", "19991231235959.999Z"]
+    elif name == "E13":
+        out = ["200101120000Z", "200101123000Z", "991231235959Z"]
+    elif name == "E14":
+        out = [float("nan"), float("inf"), float("-inf"), 0.0, 1.5, -2.0]
+    elif name == "E15":
+        out = [{"r15": float("nan")}, {"r15": float("nan"), "t15": "20200101120000Z"}, {"r15": 3.0, "t15": "20200101123000Z"}]
+    elif name == "E16":
+        out = [[2, 0, 1], [0, 1, 2], [2, 2, 0], [1], []]
+    elif name == "E17":
+        out = [[True, False, True], [False, True], []]
     elif name == "E8":
         out = [{"n8": 1}, {"s8": "hello", "n8": 2}, {"s8": "other", "u8": "x", "n8": 3}, {"n8": 4, "v8": "v", "x8": "y"}, {"n8": 5, "x8": "ext"}]
     return out
@@ -398,6 +419,8 @@ def values(mod, name, rng, quick):
         out += [(c.name, None) for c in t.comps]
     elif name == "S7":
         out += [{"p": 1, "q": -1}, {"p": 0, "q": 0, "r": True}, {"p": 300, "q": -300, "s": False}, {"p": 1, "q": 2, "r": False, "s": True}]
+    elif name == "I0":
+        out += [0, 1, 127, 128, 255, 256, 32767, 32768, 65535, 65536, 8388607, 8388608, (1 << 31) - 1, 1 << 31, (1 << 32) - 1, 1 << 32, (1 << 63) - 1]
     elif name in ("I1", "I2"):
         out += [-10, -9, -1, 0, 1, 117, 118, 245, 246, 65525, 65526, 1 << 40]
     elif name == "I3":
@@ -418,7 +441,7 @@ def values(mod, name, rng, quick):
         out += [bytes((i * 11) & 0xff for i in range(70000))]
     elif name == "Z4":
         out += [[bool(i % 3) for i in range(n)] for n in (65535, 65536, 65537)]
-    elif name in ("X8", "X16"):
+    elif name in ("X8", "X16", "X63", "X64", "X65"):
         k = int(name[1:])
         out += [{"a%d" % k: 7}, {"a%d" % k: 7, "e%d-1" % k: 1, "e%d-%d" % (k, k): k}, {"a%d" % k: 1, "e%d-%d" % (k, k): -1},
                 dict([("a%d" % k, 0)] + [("e%d-%d" % (k, i), i) for i in range(1, k + 1)]), {"a%d" % k: 2, "e%d-%d" % (k, k // 2): 5}]
